@@ -247,7 +247,7 @@ def check_case(case) -> Outcome:
     elif kind == "feature_in_two_lists":
         override["dup"] = True
     elif kind == "string_in_quantitative":
-        col = quant[pos % len(quant)]
+        col = quant[(pos + variant // 2) % len(quant)]  # the variants of one position cover several columns
         X[col] = X[col].astype(object)
         rows = list(range(n))
         if variant % 2 and len(quant) > 1:
